@@ -681,7 +681,7 @@ class C06:
     def run_sweep(self, sh, rec):
         sites = self.sweep_sites()
         mine = sites[sh["index"] :: sh["nsweep"]]
-        for k, (coname, ln) in enumerate(mine):
+        for k, (coname, ln) in enumerate(harness.budgeted(mine, rec)):
             rec.count("sweep_sites")
             before = self.inj.stats()["delays_injected"]
             for j, base in enumerate(self.SWEEP_CASES):
@@ -712,7 +712,7 @@ class C06:
         if sh["index"] < len(DIRECTED):
             cases += [dict(DIRECTED[sh["index"]])] * 3
         cases += [gen_case(rng, sh["tier"]) for _ in range(sh["n"])]
-        for i, case in enumerate(cases):
+        for i, case in enumerate(harness.budgeted(cases, rec)):
             if i < 2:
                 rec.sample({"case": case}, case["form"])
             self.run_case(case, rec)
